@@ -3,8 +3,6 @@ import FsDb.Proofs.StepClean
 namespace FsDb
 open Sys Spec
 
-/-- the collector's horizon: first registered transaction's number, else a fresh number -/
-def gcHz (c : Sys) : Nat := match c.reg.head? with | some tx => tx.seq | none => c.counter + 1
 
 def gcDels (c : Sys) : List Ver := c.dom.flatMap (fun k => (collect (c.main k) (gcHz c)).1)
 
